@@ -4,6 +4,6 @@
 S=$1; C=$2; shift 2
 D=$(mktemp -d /tmp/seedcopy_XXXX)
 git -C /repo archive HEAD | tar -x -C $D
-(cd $D && patch -p1 -s < /verif/seeded/$S/patch.diff) || { echo "patch failed"; rm -rf $D; exit 2; }
+[ "$S" = clean ] || (cd $D && patch -p1 -s < /verif/seeded/$S/patch.diff) || { echo "patch failed"; rm -rf $D; exit 2; }
 VERIF_REPO=$D VERIF_OUT=$D/_out /verif/check $C "$@" 2>&1 | grep -v "WARNING conda" | grep "^VIOLATION\|^\[\|what:\|HARNESS\|KNOWN" | awk 'NR<=6{print} {last=$0} END{print last}' | cut -c1-400
 rm -rf $D
